@@ -347,3 +347,57 @@ def r8_mirror(ctx):
 
 
 RULES = [r1_def_coverage, r1b_table, r2_asserts, r3_analyze, r4_select, r7_inverse_table, r8_mirror]
+
+
+def r9_unvisited_successors(ctx):
+    ctx.rule("C11.r9", "error mode: the backward iteration runs over the reversed CFG and visits only blocks that reach the exit; a block "
+             "with a successor outside that set must treat the states flowing there as possibly erroneous (top), never as `no error`", floor=1)
+    NP = "crab::analyzer::necessary_preconditions_fixpoint_iterator"
+    fs = ctx.db.fns(BWD, pk=NP + "::analyze")
+    if not ctx.need(fs, "necessary_preconditions_fixpoint_iterator::analyze"):
+        return
+    # the iteration graph: the base class must be built from cfg_rev<CFG>(cfg); anything else is another design
+    ctors = [f for f in ctx.db.fns(BWD, cpk=NP) if f.get("ctor") == "other"]
+    plain_rev = bool(ctors) and all(any(isinstance(strip(i.get("e")), dict) and "cfg_rev" in (json_T(i.get("e")) or "") for i in f.get("inits", []))
+                                    for f in ctors)
+    for fn in fs:
+        body = fn["body"]
+        if not plain_rev:
+            ctx.undecided("the backward iterator is no longer built over cfg_rev<CFG>(cfg): how blocks that cannot reach the exit are "
+                          "covered has to be re-read", fn, body)
+            continue
+        g = paths.guards(body)
+        okn = None
+        for n in walk(body):
+            # precond = top  /  precond.set_to_top()  /  precond |= invariant ...
+            weak = False
+            if n.get("k") == "call" and n.get("op") == "=" and is_param(n.get("o"), fn, 1) and \
+                    any(is_call(x, name=("make_top", "top")) for x in walk(n.get("a", [None])[0])):
+                weak = True
+            if is_call(n, name="set_to_top") and is_param(n.get("o"), fn, 1):
+                weak = True
+            if not weak:
+                continue
+            gs = [(c, p) for c, p in g.get(id(n), ())]
+            in_succ_loop = any(isinstance(c, tuple) and any(is_call(x, name="next_nodes") and is_field(obj(x), "m_cfg") for x in walk(c[1]))
+                               for c, p in gs if isinstance(c, tuple)) or \
+                any(l.get("k") == "rangefor" and any(is_call(x, name="next_nodes") and is_field(obj(x), "m_cfg") for x in walk(l.get("r"))) and
+                    any(x is n for x in walk(l.get("b"))) for l in walk(body))
+            error_mode = any((not isinstance(c, tuple)) and any(is_field(x, "m_good_states") for x in walk(c)) for c, p in gs)
+            if in_succ_loop and error_mode:
+                okn = n
+        if okn is not None:
+            ctx.ok("analyze: precond := top when a successor of the block (original CFG) is not among the blocks reaching the exit", fn, okn)
+        else:
+            ctx.bad("necessary_preconditions_fixpoint_iterator::analyze never looks at the successors of the block in the ORIGINAL cfg: a "
+                    "successor that cannot reach the exit is not visited by the iteration over cfg_rev and contributes `bottom` (no "
+                    "error) to its predecessors, so an assertion that can fail there is ignored and the precondition at the entry can be "
+                    "empty", fn, body, sig="unvisited-successors-ignored")
+
+
+def json_T(e):
+    e = strip(e)
+    return (e.get("T") or "") + " " + " ".join((x.get("T") or "") + ((callee(x) or {}).get("qn") or "") for x in walk(e) if isinstance(x, dict))
+
+
+RULES += [r9_unvisited_successors]
